@@ -112,6 +112,27 @@ func checkFloatCarrier(x float64) string {
 	return msg
 }
 
+// checkDoubleStream: a []float64 of n values (all of form `form` octets, after a string
+// pad of `pad` characters) decoded through the buffered one-shot path; long enough
+// that values straddle the decoder's internal buffer refills at every alignment.
+func checkDoubleStream(vals []float64, pad int) string {
+	c := &zoo.FloatFields{L64: vals, M64: map[string]float64{mkString(0, pad, 0, 0, 1): 1}}
+	stage, err, _ := roundTrip(c)
+	if err != nil {
+		return fmt.Sprintf("list of %d doubles after %d pad characters: %s: %v", len(vals), pad, stage, err)
+	}
+	top := make([]interface{}, 0, len(vals)+1)
+	top = append(top, mkString(0, pad, 0, 0, 2))
+	for _, v := range vals {
+		top = append(top, v)
+	}
+	stage, err, _ = roundTrip(top)
+	if err != nil {
+		return fmt.Sprintf("untyped list of %d doubles after %d pad characters: %s: %v", len(vals), pad, stage, err)
+	}
+	return ""
+}
+
 func TestC08(t *testing.T) {
 	r := rec.For("C08")
 	rig := newScalarRig()
@@ -173,6 +194,33 @@ func TestC08(t *testing.T) {
 		}
 	}
 	r.Label("specials+powers-of-two")
+	// ---- long messages: values of each wire length at every alignment to 4096-octet boundaries
+	{
+		rs := seedFor("C08stream")
+		for _, form := range []string{"9", "5", "3", "mixed"} {
+			for pad := 0; pad < 10; pad++ {
+				vals := make([]float64, 1100)
+				for i := range vals {
+					switch form {
+					case "9":
+						vals[i] = math.Float64frombits(rs.next()&^(0x7ff<<52) | uint64(1000+rs.next()%40)<<52)
+					case "5":
+						vals[i] = float64(math.Float32frombits(uint32(rs.next())&^(0xff<<23) | uint32(100+rs.next()%50)<<23))
+					case "3":
+						vals[i] = float64(int64(rs.next()%60000) - 30000)
+					default:
+						vals[i] = []float64{0, 1, 7, 300, 0.5, 0.1, -2.25, 1e100}[rs.next()%8]
+					}
+				}
+				if msg := checkDoubleStream(vals, pad); msg != "" {
+					directFail(t, "C08", map[string]interface{}{"stream_form": form, "pad": fmt.Sprint(pad)}, "C08 %s-octet doubles in a long message: %s", form, msg)
+				}
+				r.EvalN(int64(2 * len(vals)))
+				r.NonTrivial(av.Hash(fmt.Sprint("stream", form, pad)))
+			}
+		}
+		r.Label("long-messages-across-buffer-refills")
+	}
 	rng := seedFor("C08")
 	if rec.Thorough() {
 		// ---- all 2^32 float32 bit patterns, widened
